@@ -41,10 +41,12 @@ def record_one(job):
     g = Gamma(Fraction(a), Fraction(b))
     rec = Recorder(g, budget=job.get("budget", 1024), tmpdir=job.get("tmpdir"))
     _B.RECMODE[0] = job.get("rec", "dict")
+    _B.CATMODE[0] = job.get("catmode", "bool")
     try:
         events = rec.run(job["ops"])
     finally:
         _B.RECMODE[0] = "dict"
+        _B.CATMODE[0] = "bool"
     return {
         "id": job["id"],
         "nslots": job["nslots"],
@@ -53,6 +55,7 @@ def record_one(job):
         # histories with vectorised fills may carry zero-weight sparse bins: the multiset semantics is compared modulo them
         "strip": job.get("kind", "") in ("frame", "numpy", "shared"),
         "gamma": [str(a), str(b)],
+        "catmode": job.get("catmode", "bool"),
         "events": events,
         "cut": rec.cut or "",
         "nops": len(job["ops"]),
